@@ -64,14 +64,16 @@ Record rt_opts : Type := mkRtOpts {
   rt_it : bool;          (* internal nodes carry taxa (reader suppress_internal_node_taxa=False)
                             instead of labels *)
   rt_sr : bool;          (* writer suppress_rooting *)
-  rt_dir : rooting_directive   (* reader rooting *)
+  rt_dir : rooting_directive;  (* reader rooting *)
+  rt_bc : bool           (* which form of the reader's `,)` handling (Newick.ro_blank_after_comma);
+                            the round trip holds for both *)
 }.
 
 Definition rt_wopts (o : rt_opts) : wopts :=
   mkWopts false true false false (rt_sr o) false (rt_uu o) (rt_ps o) (fun l => l).
 
 Definition rt_ropts (o : rt_opts) : ropts :=
-  mkRopts (rt_dir o) false (rt_pu o) (negb (rt_it o)) false true false.
+  mkRopts (rt_dir o) false (rt_pu o) (negb (rt_it o)) false true false (rt_bc o).
 
 (* the one string the writer renders for the node / the reader delivers for it *)
 Definition tag_of (o : rt_opts) (t : ntree) : option str :=
